@@ -22,16 +22,16 @@ CHECKS = {
          "Decides that the two analysis goroutines share no written location (sound under the over-approximating field-based abstraction), that the spawner joins before touching their results, that no package-level state is written at run time and that no source of run-to-run variation (map iteration, select, clock, randomness, environment, pointer formatting) is reachable from Compile, the builder API or main. These are the structural conditions that make generation a pure function; byte-identity itself is not observed.",
          "DESIGN.md §4 C09",
          "Trusts go/ssa and the library effect table (effects.go); assumes text/template, go/parser and go/printer are deterministic; object-insensitive: may over-report, cannot under-report for the stated obligations."),
- "C12": ("template instantiation under all 2^5 boolean valuations (text/template/parse walk) + go/ssa: interprocedural write sets of Init's closures vs must-assignment in reset; path simulation of the sentinel; AST bound check of token-buffer reads",
-         "Decides that every per-parse variable any closure can write is re-initialised by reset on every path from state-independent values, that the one exception (token buffer) is never read beyond tokenIndex, that reset re-derives buffer and sentinel from Buffer, that parse republishes the token buffer and Size only affects capacity, and that no offset is narrowed. Sufficient structural conditions for 'Reset+Parse = fresh parser'; equality of results is implied, not observed.",
+ "C12": ("template instantiation under all 2^5 boolean valuations (text/template/parse walk) + go/ssa: interprocedural write sets of Init's closures vs must-assignment in reset; path simulation of the sentinel; AST bound check of token-buffer reads; abstract evaluation (E5) of Init's closures by the Go-subset interpreter on scripted parses of a used versus a fresh instance",
+         "Decides that every per-parse variable any closure can write is re-initialised by reset on every path from state-independent values, that the one exception (token buffer) is never read beyond tokenIndex, that reset re-derives buffer and sentinel from Buffer, that parse republishes the token buffer and Size only affects capacity, and that no offset is narrowed. Sufficient structural conditions for 'Reset+Parse = fresh parser'. In addition R-reuse-semantics evaluates Init/reset/parse/add on 11 input pairs (long then short, success and failure, a backtracked branch that wrote more tokens, the empty input; Size option absent/0/1/2/64) and compares every closure variable after Reset and verdict, published tokens, error token after Parse with a fresh instance and with the definition.",
          "DESIGN.md §4 C12",
          "Trusts text/template/parse, go/types, go/ssa and the instantiator's model data (names only); the emitted rule functions are represented by a synthetic rule function here and by E1/E2 output in C01/C08."),
  "C14": ("store/address-of search over go/ssa of every template instantiation and peg.peg.go; type-shape check of package-level variables",
          "Decides instance confinement: no generated function writes a package-level variable and the only package-level variables are reference-free value tables read by element load, so two parser instances share no mutable location (sufficient for race freedom and independence, user code excluded).",
          "DESIGN.md §4 C14",
          "Trusts go/ssa; Go closure semantics (fresh captured variables per Init call); user state/actions excluded by the property."),
- "C06": ("go/ssa rules on memoize/memoizedResult/add of every AST-enabled template instantiation and peg.peg.go: key provenance, value origin (fresh copy), ordered-effects check of the replay path, dominance by the strict furthest-token comparison and by the DisableMemoize test",
-         "Decides the structural conditions that make a memo hit equal to a re-run (key = (rule, begin); verdict and tokens stored faithfully; tokens copied; replay splices/advances/sets position in order; furthest-error token only moves strictly forward so replays cannot change it; memoisation can be switched off; table re-made by reset). With deterministic rules these are sufficient; the wrapper half is decided by E2.",
+ "C06": ("go/ssa rules on memoize/memoizedResult/add of every AST-enabled template instantiation and peg.peg.go: key provenance, value origin (fresh copy), ordered-effects check of the replay path, dominance by the strict furthest-token comparison and by the DisableMemoize test; abstract evaluation (E5) of memoize/memoizedResult/add by the Go-subset interpreter on scripted rule bodies: memo hit versus re-run",
+         "Decides the structural conditions that make a memo hit equal to a re-run (key = (rule, begin); verdict and tokens stored faithfully; tokens copied; replay splices/advances/sets position in order; furthest-error token only moves strictly forward so replays cannot change it; memoisation can be switched off; table re-made by reset). With deterministic rules these are sufficient; the wrapper half is decided by E2. In addition R-memo-semantics evaluates the closures on 300+ scenarios (rule start, earlier tokens, five rule bodies incl. empty matches, four intervening branches that overwrite/extend the token buffer, success and failure) and compares position, tokenIndex, the live tokens and the furthest token after a memo hit with those after re-running the rule.",
          "DESIGN.md §4 C06",
          "Trusts go/ssa and the template instantiator; assumes no side-effecting predicates (excluded by the property)."),
  "C11": ("go/ssa rules on parse/add/memoizedResult/translatePositions/Error of every template instantiation and peg.peg.go (dominance of return-nil by the entry rule's success, dominance of maxToken stores by the strict-further and non-empty tests, cursor invariant of translatePositions decided with a ==/!= union-find over dominating branch facts, whole-buffer argument rule, no-string-indexing rule) plus abstract evaluation (E5) of the instantiated source of translatePositions and parseError.Error by the Go-subset interpreter on every short text over {newline, other, multi-byte, quote} and every token begin ≤ end ≤ len",
